@@ -42,6 +42,7 @@ class Engine:
         self.maybe_missing_fields = {'_func', '_delete', '_children'}
         self.external_effects = {}
         self.witness_fields = {}
+        self.field_types = {'_children': 'dict', '_metadata': 'dict'}
 
     # ------------------------------------------------------------------ classes
     def class_id(self, name):
